@@ -4,7 +4,7 @@ from __future__ import annotations
 from sa import contracts as C
 from checks._gf_common import run_all, report, TRUSTED as _T
 
-LEVEL = "proof"
+LEVEL = "other"
 TRUSTED = _T
 EXPLANATION = (
     "Same guard-fact verification as C01, for the clauses: (a) at every return of generate_accessible_color, the three strategies, "
@@ -22,6 +22,9 @@ def run(project, chk):
     chk.rule("H2", "contrast(text, bg) >= MIN  =>  the returned colour is the original text colour and success is true")
     chk.assumptions += ["contrast of the formatted colour equals that of the judged one (C06 numeric clause)", "A1: no NaN contrast"]
     chk.not_decided += ["compositing of translucent input happens before this code (C13); 'exactly the original' is decided as 'the same value flows back through colour-preserving wrappers'"]
+    chk.rule("H3", "the contrast that decides 'already readable' is the WCAG 2 ratio (the audit of C05, here as a discharged assumption)")
+    from checks.C05 import ratio_is_wcag
+    ratio_is_wcag(project, chk, "H3", "H3", "H3")
     contracts, out = run_all(project)
 
     def rule_of(r):
